@@ -108,6 +108,9 @@ type machine struct {
 	status    abortKind
 	statusMsg string
 	schedDep  bool // a scheduling / map-order / select choice was taken on this path
+	pubsubVals map[value]map[string]value // libp2p-pubsub model: registered topic validators per PubSub
+	c20Topic   string
+	c20PS      value
 
 	varSeq map[string]int
 
